@@ -958,8 +958,8 @@ func TestVerif_C13_Mem(t *testing.T) {
 			nops := r.Range(6, 14)
 			ops := make([]verifC13Op, 0, nops)
 			bigLeft := 0
-			if r.Chance(1, 4) {
-				bigLeft = 1 // one message above 20 000 bytes in a quarter of the sessions
+			if r.Chance(1, 3) {
+				bigLeft = 1 // one message above 20 000 bytes in a third of the sessions
 			}
 			for k := 0; k < nops; k++ {
 				fc := r.Bool()
@@ -1005,6 +1005,15 @@ func TestVerif_C13_Mem(t *testing.T) {
 				p.run(ops, func() int { return r.Range(1, 3) })
 				p.check()
 			})
+			if os.Getenv("VERIF_C13_DEBUG_TIMES") != "" {
+				mx := 0
+				for k := range ops {
+					if len(ops[k].data) > mx {
+						mx = len(ops[k].data)
+					}
+				}
+				fmt.Printf("SESSION %d comp=%v wb=%d/%d rb=%d/%d mr=%d/%d max=%d bytes=%d\n", si, cfg.comp, cfg.wbufC, cfg.wbufS, cfg.rbufC, cfg.rbufS, cfg.maxReadC, cfg.maxRdS, mx, p.c2s.total+p.s2c.total)
+			}
 			if m.WantSample() && !p.failed {
 				m.Sample(map[string]interface{}{"config": fmt.Sprintf("%+v", cfg), "ops": p.opLog, "c2s_bytes": p.c2s.total, "s2c_bytes": p.s2c.total})
 			}
